@@ -503,8 +503,21 @@ def gen_collision_case(rng):
     for i in range(rng.randint(2, 12)):
         s.put(f, "version %d" % i)
         s.write(3, f)
+        # the source may change before the copy while the wanted name is already taken
+        change = rng.choice(["none"] * 5 + ["delete", "directory", "unreadable"])
+        if change == "delete":
+            s.rm(f)
+        elif change == "directory":
+            s.rm(f)
+            s.mkdirp(f)
+        elif change == "unreadable":
+            s.chmod(f, False)
         s.timeout()
         s.dump()
+        if change == "directory":
+            s.add("rmdir %s" % hexs(f))
+        elif change == "unreadable":
+            s.chmod(f, True)
         if rng.random() < 0.15:
             s.restart()
         if rng.random() < 0.1:
@@ -586,6 +599,24 @@ def gen_project_case(rng):
              WATCH + "/pp/p1/sub/g.c", WATCH + "/pp/p2/h", WATCH + "/pp/loose.txt", WATCH + "/inc/a.txt"]
     exists = set()
     n = 0
+    if rng.random() < 0.25:
+        # the project store is unusable for a while (a stray regular file where its directory belongs): the pass that
+        # wants to snapshot fails; after repair and restart the snapshot is still owed
+        f = rng.choice(files[:6])
+        s.put(R + "/k/projects", "stray")
+        s.put(f, "c0")
+        exists.add(f)
+        s.write(3, f)
+        s.tick(3)
+        s.dump()
+        s.timeout()
+        s.dump()
+        s.rm(R + "/k/projects")
+        s.restart()
+        s.exec(3, X + "/vim")
+        s.dump()
+        s.timeout()
+        s.dump()
     for _ in range(rng.randint(6, 30)):
         r = rng.random()
         f = rng.choice(files)
